@@ -135,6 +135,24 @@ def _native_rows_cols(nPe, dof_n, which):
         return dict(confirmed=True, raised=repr(e))
 
 
+def ob_assembly_width():
+    """the P proof reads the dof arithmetic over the integers; the machine side: a connectivity stored in a narrow integer type (every node number fits, the dof numbers
+    connect * dof_n + d do not) gives the dof table of the same connectivity stored as int64"""
+    from EasyFEA.FEM._group_elem import _GroupElem
+    rng = np.random.default_rng(0)
+    n = 0
+    for dt, Nn, dof_n in ((np.uint8, 197, 2), (np.int8, 120, 3), (np.int16, 30000, 2), (np.uint16, 60000, 3), (np.int32, 2 ** 30 + 5, 6)):
+        connect = np.concatenate([rng.integers(0, Nn, size=(5, 3)), [[Nn - 1, Nn - 2, Nn - 3]]]).astype(np.int64)
+        want = (connect[:, :, None] * dof_n + np.arange(dof_n)[None, None, :]).reshape(len(connect), -1)
+        got = np.asarray(_GroupElem._Get_assembly_e(connect.astype(dt), dof_n))
+        n += 1
+        if got.shape != want.shape or not np.array_equal(got.astype(np.int64), want):
+            k = np.argwhere(got.astype(np.int64) != want)[0]
+            raise Refuted(f"_Get_assembly_e with a connectivity of type {np.dtype(dt).name} (largest node {Nn - 1}, dof_n = {dof_n}): dof {int(got[tuple(k)])} instead of {int(want[tuple(k)])} "
+                          f"(the product is taken in the narrow type and wraps)", cex=dict(dtype=np.dtype(dt).name, Nn=Nn, dof_n=dof_n), signature="assembly:width", replay=dict(confirmed=True))
+    return Verdict(DISCHARGED, backend="native", sub=n)
+
+
 def ob_rows_cols(nPe, dof_n, which):
     t0 = time.time()
     Ne = z3.Int("Ne")
@@ -552,6 +570,8 @@ def build(tier, seed):
         for dn in dofs:
             obs.append(Ob(f"C03.assembly_e.nPe{nPe}.dof{dn}", ob_assembly, (nPe, dn), "P", fa, timeout=90,
                           clause="forall Ne, connectivity, e<Ne, n<nPe, d<dof_n: A[e, n*dof_n+d] == connect[e,n]*dof_n + d; shape (Ne, nPe*dof_n)"))
+    obs.append(Ob("C03.assembly_e.width", ob_assembly_width, (), "X", fa, bound="5 narrow integer types at the edge of their range", timeout=120,
+                  clause="dof numbers are computed in 64 bits whatever the integer type of the connectivity"))
     rc = [(n, d) for n in nPes for d in dofs if n * d <= (30 if tier == "quick" else 200)]
     for nPe, dn in rc:
         for which in ("rows", "cols"):
